@@ -240,7 +240,11 @@ impl Dependencies for ReassignmentPath {
                 result.append(&mut index.net_dependencies());
                 result
             }
-            Self::DotLookup { lhs, .. } => lhs.net_dependencies(),
+            Self::DotLookup { lhs, dot_chain, .. } => {
+                let mut result = lhs.net_dependencies();
+                result.append(&mut dot_chain.net_dependencies());
+                result
+            }
         }
     }
 }
